@@ -66,7 +66,9 @@ def history(draw):
         a = draw(st.sampled_from(["left", "left", "center", "right"]))
         if a != "left":
             nt[0] += 1
-        return a
+        # alignment names are documented as case-insensitive: any spelling means the same on both sides
+        sp = draw(st.integers(0, 5))
+        return {0: a.upper(), 1: a.capitalize(), 2: a[0] + a[1:].upper()}.get(sp, a)
 
     for j in range(draw(st.integers(3, 18))):
         o = draw(st.sampled_from(["write", "write", "line", "line", "message", "clear", "progress", "progress_run", "display", "backlight", "brightness", "power_run", "glyph", "glyph_run"]))
